@@ -1,0 +1,41 @@
+//go:build verif
+
+package replicator
+
+// VerifStats is a snapshot of the replicator's internal bookkeeping, exposed
+// to verification tooling only (build tag "verif").
+type VerifStats struct {
+	Queued     int
+	InProgress int
+	Buffered   int
+	Added      int
+	Fetching   int
+	Fetched    int
+}
+
+// VerifStats returns the current queue, task and buffer counts.
+func (r *replicator) VerifStats() VerifStats {
+	r.muProcess.RLock()
+	defer r.muProcess.RUnlock()
+
+	s := VerifStats{
+		Queued:     r.queue.Len(),
+		InProgress: int(r.taskInProgress),
+	}
+	for _, st := range r.tasks {
+		switch st {
+		case stateAdded:
+			s.Added++
+		case stateFetching:
+			s.Fetching++
+		case stateFetched:
+			s.Fetched++
+		}
+	}
+
+	r.muBuffer.Lock()
+	s.Buffered = len(r.buffer)
+	r.muBuffer.Unlock()
+
+	return s
+}
